@@ -3,7 +3,7 @@
 
   `Validate.machineWith c` is the model of `Machine::validate` with the three range tests
   (machine fractions, transition probabilities, per-vector sums) as a parameter `c`;
-  `Validate.machine = Validate.machineWith Validate.checks` mirrors the code as it is today
+  `Validate.machine` (= `Validate.machineWith Validate.checks`, `machine_eq_with`) mirrors the code as it is today
   (`Validate.checks` is defined from `fracBad/probBad/sumBad`, the MIRROR POINT in Validate.lean).
 
   * `C12_sound_of_checks`   : for ANY sound triple of range tests, acceptance implies `WF`.
@@ -40,8 +40,8 @@ theorem C12_sound_fixed (m : Machine) : machineWith checksFixed m = true → WF 
 
 /-- FULL soundness of today's model, from the one hypothesis about the comparison style -/
 theorem C12_sound_if (hc : ChecksSound Validate.checks) (m : Machine) :
-    Validate.machine m = true → WF m :=
-  C12_sound_of_checks hc m
+    Validate.machine m = true → WF m := by
+  rw [machine_eq_with]; exact C12_sound_of_checks hc m
 
 /-- … which does not hold today: NaN passes `x < 0.0 || x > 1.0` -/
 theorem C12_checks_unsound_today : ¬ ChecksSound Validate.checks := checksCur_unsound
@@ -66,8 +66,8 @@ theorem C12_sound_today_false : ¬ ∀ m, Validate.machine m = true → WF m :=
 
 /-- what holds today: soundness for machines without NaN fractions / probabilities -/
 theorem C12_sound_today_partial (m : Machine) (hnn : InputsSat (· ≠ .nan) m) :
-    Validate.machine m = true → WF m :=
-  machineWith_sound checksCur_sound_on_non_nan hnn
+    Validate.machine m = true → WF m := by
+  rw [machine_eq_with]; exact machineWith_sound checksCur_sound_on_non_nan hnn
 
 /-- the fixed tests reject NaN in every position -/
 theorem C12_fixed_rejects_nan (m : Machine) (h : machineWith checksFixed m = true) :
@@ -112,24 +112,12 @@ variable {σ : Type} (ρ : Oracle σ)
 theorem C12_init_no_fault (ms : List Machine) (fp fb : F64) (t0 : Int) (rng : σ)
     (h : frameworkNew ms fp fb = true) : (Fw.init ρ ms fp fb t0 rng).fault = none := by
   have hms : ∀ m ∈ ms, 0 < m.states.length := fun m hm =>
-    machineWith_has_state (((C12_frameworkNew_factors ms fp fb).mp h).2.2 m hm)
+    machineWith_has_state (by rw [← machine_eq_with]; exact ((C12_frameworkNew_factors ms fp fb).mp h).2.2 m hm)
   unfold Fw.init
-  simp only []
   suffices H : ∀ (l : List Nat) (s : Fw σ), (∀ mi ∈ l, mi < ms.length) → InitInv ms s →
-      InitInv ms (l.foldl (fun s mi =>
-        match s.machines[mi]? with
-        | none => s.withFault .oob
-        | some m =>
-          match m.states[0]? with
-          | none => s.withFault .oob
-          | some st =>
-            match st.action with
-            | none => s
-            | some a =>
-              let (l, s) := sampleLimit ρ a s
-              s.modRt mi (fun r => { r with stateLimit := l })) s) by
+      InitInv ms (l.foldl (initLimit ρ) s) by
     exact (H (List.range ms.length) _ (fun mi hmi => List.mem_range.mp hmi)
-      ⟨rfl, by simp, rfl⟩).noFault
+      ⟨rfl, by simp [Fw.init0], rfl⟩).noFault
   intro l
   induction l with
   | nil => intro s _ hs; exact hs
@@ -141,6 +129,7 @@ theorem C12_init_no_fault (ms : List Machine) (fp fb : F64) (t0 : Int) (rng : σ
     · have hmi : mi < ms.length := hl mi List.mem_cons_self
       have hm : s.machines[mi]? = some ms[mi] := by
         rw [hs.machines]; exact List.getElem?_eq_getElem hmi
+      unfold initLimit
       rw [hm]
       simp only []
       have hst : 0 < ms[mi].states.length := hms _ (List.getElem_mem hmi)
